@@ -123,3 +123,67 @@ func init() {
 		},
 	}
 }
+
+func init() {
+	props["C02"] = &propDef{
+		ID:       "C02",
+		Anchored: []string{").S", "SliceDetails", "CheckSlice", ").Slice", "sliceInto", "Narrow", ").Materialize", "tensor.S"},
+		Bounds: map[string]interface{}{"triples": "start, end, step of every ranged axis symbolic in [-box, dim+box] (box 3 quick rank 1, 2 otherwise), step >= 0; single indices symbolic over full int64",
+			"view_coordinate": "symbolic over the whole result box", "elements": "symbolic",
+			"parent_shapes": "quick (5), (3,4), (2,3,2) ; thorough adds (4), (2,5), (4,3), (3,2,2), (2,2,3) and two ranged axes at once", "parent_recipes": "C, F, T, window, window-of-transpose, transpose-of-window, window-of-step-slice (depth 3)",
+			"kinds": "per axis nil / range / single index, incl. fewer slices than axes; quick has one symbolic range per instance", "negative_steps": "outside the claim (not defined by the statement)"},
+		Instances: func(tier string, seed int64) []Instance {
+			var out []Instance
+			type rec struct{ base, pre string }
+			recs := []rec{{"C", ""}, {"F", ""}, {"C", "T"}, {"C", "W"}, {"C", "WT"}, {"C", "TW"}, {"C", "PW"}, {"F", "W"}}
+			type shp struct {
+				s     []int
+				kinds []string
+				box   int
+			}
+			shapes := []shp{
+				{[]int{5}, []string{"r", "i"}, 3},
+				{[]int{3, 4}, []string{"rn", "nr", "ri", "ir", "r", "i", "ii", "in", "ni"}, 2},
+				{[]int{2, 3, 2}, []string{"nrn", "inr", "rii", "ni"}, 2},
+			}
+			if tier == "thorough" {
+				shapes = append(shapes,
+					shp{[]int{4}, []string{"r", "i"}, 3},
+					shp{[]int{3, 4}, []string{"rr"}, 2},
+					shp{[]int{2, 5}, []string{"nr", "rn", "ir", "ri"}, 2},
+					shp{[]int{4, 3}, []string{"nr", "rn", "rr"}, 2},
+					shp{[]int{3, 2, 2}, []string{"rnn", "nrn", "nnr", "rni", "irn"}, 2},
+					shp{[]int{2, 2, 3}, []string{"nnr", "nrr", "rin"}, 2},
+				)
+			}
+			for _, sh := range shapes {
+				for ri, r := range recs {
+					if len(sh.s) == 1 && (r.pre == "T" || r.pre == "WT" || r.pre == "TW" || r.pre == "PW") {
+						continue
+					}
+					for ki, k := range sh.kinds {
+						if tier == "quick" && len(sh.s) == 3 && (ri+ki)%3 != 0 {
+							continue
+						}
+						if tier == "quick" && len(sh.s) == 2 && ri >= 2 && (ri+ki)%2 != 0 {
+							continue
+						}
+						dts := []string{"int"}
+						if ri < 2 && ki == 0 {
+							dts = []string{"int", "int8", "complex128", "string", "float32"}
+						}
+						for _, dt := range dts {
+							mat := 0
+							if ki == 0 && dt == "int" {
+								mat = 1
+							}
+							out = append(out, mkInst("vhC02Slice", map[string]interface{}{"dtype": dt, "shape": sh.s, "base": r.base, "pre": r.pre, "kinds": k, "box": sh.box, "mat": mat, "splitstep": 0},
+								"dtype", "shape", "base", "pre", "kinds"))
+						}
+					}
+				}
+			}
+			return out
+		},
+	}
+}
